@@ -2251,3 +2251,206 @@ pub mod parse_errors {
 
 /// `string.rs` and the comment wrapping that uses it (`src/verif_hooks/strings.rs`).
 pub mod strings;
+
+/// The token-stream scanners of `macros.rs` and `parse/macros/mod.rs`: the matcher formatter
+/// (`MacroArgParser`, `format_macro_args`), `replace_names`, the branch splitter
+/// (`MacroParser`), `macro_style`, `parse_macro_args`, `rewrite_macro_def` and `rewrite_macro`.
+pub mod macros {
+    use rustc_ast::ast;
+
+    use crate::config::{Config, Verbosity};
+    use crate::macros::{MacroPosition, verif_local as ml};
+    use crate::parse::parser::Parser;
+    use crate::parse::session::ParseSess;
+    use crate::shape::{Indent, Shape};
+    use crate::visitor::{FmtVisitor, SnippetProvider};
+    use crate::{FormatReport, Input};
+
+    /// One `(matcher) => {body}` branch as `MacroParser` cuts it.
+    #[derive(Debug, Clone)]
+    pub struct Branch {
+        /// the matcher's token trees (`encode_stream`: one delimited group)
+        pub args: String,
+        /// `P`, `K` or `B`: the delimiter of the matcher
+        pub delim: char,
+        /// source text of the branch including a `;` behind it
+        pub span: String,
+        /// source text between the delimiters of the body
+        pub body: String,
+        /// source text of the body with its delimiters
+        pub whole_body: String,
+        /// `format_macro_args(context, args, shape)`
+        pub matcher: Option<String>,
+    }
+
+    #[derive(Debug, Clone)]
+    pub struct MacroDef {
+        pub name: String,
+        pub macro_rules: bool,
+        /// all token trees of the definition's body
+        pub body_tokens: String,
+        /// `MacroParser::parse`
+        pub branches: Option<Vec<Branch>>,
+        /// `rewrite_macro_def` as the visitor calls it for a top-level item
+        pub rewrite: Option<String>,
+    }
+
+    #[derive(Debug, Clone)]
+    pub struct MacroCall {
+        pub name: String,
+        /// source text of the call
+        pub snippet: String,
+        /// `macro_style`: `P`, `K` or `B`
+        pub style: char,
+        pub forced_bracket: bool,
+        /// `parse_macro_args(context, tokens, style', forced_bracket)` with `style'` the delimiter
+        /// `rewrite_macro_inner` passes when the call is not nested: (vec_with_semi,
+        /// trailing_comma, one letter per argument: `E`xpr `T`y `P`at `I`tem `K`eyword)
+        pub parsed: Option<(bool, bool, String)>,
+        /// `rewrite_macro(mac, context, shape, MacroPosition::Item)`
+        pub rewrite: Option<String>,
+    }
+
+    fn with_parsed<R>(
+        src: &str,
+        config: &Config,
+        f: impl FnOnce(&ast::Crate, &mut FmtVisitor<'_>) -> R,
+    ) -> Result<R, String> {
+        let mut config = config.clone();
+        config.set().verbose(Verbosity::Quiet);
+        config.set().show_parse_errors(false);
+        rustc_span::create_session_if_not_set_then(config.edition().into(), |_| {
+            let mut psess = ParseSess::new(&config).map_err(|e| e.to_string())?;
+            let krate = Parser::parse_crate(Input::Text(src.to_owned()), &psess)
+                .map_err(|_| "parse error".to_owned())?;
+            psess.set_silent_emitter();
+            let snippet_provider: SnippetProvider = psess.snippet_provider(krate.spans.inner_span);
+            let mut visitor =
+                FmtVisitor::from_psess(&psess, &config, &snippet_provider, FormatReport::new());
+            visitor.skip_context.update_with_attrs(&krate.attrs);
+            visitor.last_pos = snippet_provider.start_pos();
+            Ok(f(&krate, &mut visitor))
+        })
+    }
+
+    fn shape_of(x: (usize, usize, usize, usize)) -> Shape {
+        Shape {
+            width: x.0,
+            indent: Indent {
+                block_indent: x.1,
+                alignment: x.2,
+            },
+            offset: x.3,
+        }
+    }
+
+    /// Every top-level macro definition of `src`.  `shape` = (width, block_indent, alignment,
+    /// offset) is the shape each matcher is formatted in; `rewrite_macro_def` gets the visitor's.
+    pub fn macro_defs(
+        src: &str,
+        config: &Config,
+        shape: (usize, usize, usize, usize),
+    ) -> Result<Vec<MacroDef>, String> {
+        with_parsed(src, config, |krate, visitor| {
+            let mut out = vec![];
+            for item in &krate.items {
+                let ast::ItemKind::MacroDef(ident, ref def) = item.kind else {
+                    continue;
+                };
+                let context = visitor.get_context();
+                let branches = ml::split_branches(&context, def).map(|bs| {
+                    bs.into_iter()
+                        .map(|b| Branch {
+                            args: ml::encode_stream(&b.args),
+                            delim: b.delim,
+                            span: b.span,
+                            body: b.body,
+                            whole_body: b.whole_body,
+                            matcher: ml::matcher(&context, b.args, shape_of(shape)),
+                        })
+                        .collect()
+                });
+                let rewrite = crate::macros::rewrite_macro_def(
+                    &visitor.get_context(),
+                    visitor.shape(),
+                    visitor.block_indent,
+                    def,
+                    ident,
+                    &item.vis,
+                    item.span,
+                )
+                .ok();
+                out.push(MacroDef {
+                    name: ident.name.to_string(),
+                    macro_rules: def.macro_rules,
+                    body_tokens: ml::encode_stream(&def.body.tokens),
+                    branches,
+                    rewrite,
+                });
+            }
+            out
+        })
+    }
+
+    /// Every top-level macro call item of `src` (`m!(..);`, `m![..];`, `m! {..}`).
+    pub fn macro_calls(src: &str, config: &Config) -> Result<Vec<MacroCall>, String> {
+        with_parsed(src, config, |krate, visitor| {
+            let mut out = vec![];
+            for item in &krate.items {
+                let ast::ItemKind::MacCall(ref mac) = item.kind else {
+                    continue;
+                };
+                let context = visitor.get_context();
+                let original = crate::macros::macro_style(mac, &context);
+                let (name, forced_bracket) = ml::macro_name(&context, mac);
+                let style = if forced_bracket {
+                    rustc_ast::token::Delimiter::Bracket
+                } else {
+                    original
+                };
+                let parsed = crate::parse::macros::parse_macro_args(
+                    &context,
+                    mac.args.tokens.clone(),
+                    style,
+                    forced_bracket,
+                )
+                .map(|p| {
+                    let kinds = p
+                        .args
+                        .iter()
+                        .map(|a| match a {
+                            crate::macros::MacroArg::Expr(..) => 'E',
+                            crate::macros::MacroArg::Ty(..) => 'T',
+                            crate::macros::MacroArg::Pat(..) => 'P',
+                            crate::macros::MacroArg::Item(..) => 'I',
+                            crate::macros::MacroArg::Keyword(..) => 'K',
+                        })
+                        .collect();
+                    (p.vec_with_semi, p.trailing_comma, kinds)
+                });
+                let rewrite = crate::macros::rewrite_macro(
+                    mac,
+                    &visitor.get_context(),
+                    visitor.shape(),
+                    MacroPosition::Item,
+                )
+                .ok();
+                out.push(MacroCall {
+                    name,
+                    snippet: context.snippet(mac.span()).to_owned(),
+                    style: ml::delim_letter(original),
+                    forced_bracket,
+                    parsed,
+                    rewrite,
+                });
+            }
+            out
+        })
+    }
+
+    /// `replace_names(input)`: the text with `$name` replaced by `zname` and the substitutions as
+    /// sorted (old, new) pairs.
+    pub fn replace_names(input: &str) -> Option<(String, Vec<(String, String)>)> {
+        ml::replace_names_sorted(input)
+    }
+}
